@@ -218,3 +218,105 @@ class M_hashlib(object):
 
 def rope_key(r):
     return valkey(rope(r))
+
+
+# ---- base64 as an inverse pair -----------------------------------------------------------------------------------------
+import base64 as _b64
+
+
+class M_base64(object):
+    """b64decode(b64encode(x)) = x; concrete arguments use the real library"""
+
+    @staticmethod
+    def _enc(name, x):
+        if isinstance(x, (bytes, bytearray)):
+            return getattr(_b64, name)(x)
+        r = rope(x)
+        c = r.concrete()
+        if c is not None:
+            return getattr(_b64, name)(c)
+        t = Term(name, r)
+        n = r.length()
+        t.size = ((n + 2) // 3) * 4
+        return tblob(t, t.size)
+
+    @staticmethod
+    def b64encode(x):
+        return M_base64._enc("b64encode", x)
+
+    @staticmethod
+    def urlsafe_b64encode(x):
+        return M_base64._enc("urlsafe_b64encode", x)
+
+    @staticmethod
+    def b64decode(x):
+        if isinstance(x, (bytes, bytearray, str)):
+            return _b64.b64decode(x)
+        t = whole_term(rope(x), "b64encode")
+        if t is not None:
+            return SymSeq(t.args[0].items, "bytes")
+        raise Unsupported("b64decode of a symbolic value that is not a whole b64encode term")
+
+
+# ---- X25519 (axolotl.ecc.curve.Curve API) and AES-GCM --------------------------------------------------------------------
+class M_ECKey(object):
+    def __init__(self, kind, ident):
+        self.kind, self.ident = kind, ident
+
+    def serialize(self):
+        t = Term("pubkey", self.ident)
+        t.size = 32
+        if self.kind == "pub":
+            return SymSeq([5], "bytes") + tblob(t, 32)
+        t2 = Term("privkey", self.ident)
+        t2.size = 32
+        return tblob(t2, 32)
+
+    def getPublicKey(self):
+        return self.serialize()[1:]
+
+
+class M_KeyPair(object):
+    def __init__(self, ident):
+        self.publicKey = M_ECKey("pub", ident)
+        self.privateKey = M_ECKey("priv", ident)
+
+    def getPublicKey(self):
+        return self.publicKey
+
+    def getPrivateKey(self):
+        return self.privateKey
+
+
+class M_Curve(object):
+    counter = [0]
+
+    @staticmethod
+    def generateKeyPair():
+        M_Curve.counter[0] += 1
+        return M_KeyPair("fresh-%d" % M_Curve.counter[0])
+
+    @staticmethod
+    def calculateAgreement(pub, priv):
+        a, b = sorted([str(pub.ident), str(priv.ident)])       # DH commutativity: shared(a,b) == shared(b,a)
+        t = Term("x25519", a, b)
+        t.size = 32
+        return tblob(t, 32)
+
+
+class M_AESGCM(object):
+    def __init__(self, key):
+        self.key = rope(key)
+
+    def encrypt(self, nonce, data, aad):
+        pt = rope(data)
+        t = Term("gcm_enc", self.key, rope(nonce), rope(aad or b""), pt)
+        t.pt = pt
+        t.size = pt.length() + 16
+        return tblob(t, t.size)
+
+    def decrypt(self, nonce, data, aad):
+        t = whole_term(rope(data), "gcm_enc")
+        if t is not None and valkey(t.args[0]) == valkey(self.key) and valkey(t.args[1]) == valkey(rope(nonce)) and valkey(t.args[2]) == valkey(rope(aad or b"")):
+            return t.pt
+        raise ValueError("InvalidTag")
